@@ -45,12 +45,12 @@ func c03Seq(k int) []string {
 	return nil
 }
 
-var c03Places = []string{"body", "li", "blockquote", "layout-td", "data-td"}
+var c03Places = []string{"body", "li", "blockquote", "layout-td", "data-td", "body-loose", "div-loose"}
 
 func init() {
 	register(&Prop{
 		ID: "C03",
-		Rule: "even cases: random G-article pages whose paragraphs use only text, <br>, attribute-free b/i/em/strong/span/u/code/font, links and javascript: links; odd cases: the enumeration of all child sequences of length <=4 over {text, br, inline, link, js-link with one text child, js-link with other children} (1554 sequences) x 5 placements (body, li, blockquote, layout td, data td), each as one paragraph inside a small article, with paragraph lengths chosen around the keep/drop boundary. Non-trivial = a simple paragraph observed fully kept or fully dropped; distinct = distinct (placement, child-sequence shape, kept/dropped).",
+		Rule: "even cases: random G-article pages whose paragraphs use only text, <br>, attribute-free b/i/em/strong/span/u/code/font, links and javascript: links; odd cases: the enumeration of all child sequences of length <=4 over {text, br, inline, link, js-link with one text child, js-link with other children} (1554 sequences) x 7 placements (body, li, blockquote, layout td, data td, loose text directly in <body>, loose text in a <div>), each as one paragraph inside a small article, with paragraph lengths chosen around the keep/drop boundary. Non-trivial = a simple paragraph observed fully kept or fully dropped; distinct = distinct (placement, child-sequence shape, kept/dropped).",
 		Assumptions: []string{
 			"'visible word of the paragraph' = token the generator wrote into that <p>",
 			"inline elements carrying class/id/rel/itemprop are not generated (byline/share/unlikely rules legitimately remove those)",
@@ -138,19 +138,27 @@ func (c *Ctx) runC03Enum(idx int) (*artRun, bool) {
 	g.w("<html><head><title>" + g.tokK(KTitle, "title") + "</title></head><body><div>\n")
 	long := func() { g.paragraph(25 + r.Intn(40)) }
 	// context: 0-2 long paragraphs before, target, 0-2 after; variant drives sizes
-	nb := variant % 3
-	na := (variant / 3) % 3
+	nb := (variant + r.Intn(3)) % 3
+	na := r.Intn(3)
 	for i := 0; i < nb; i++ {
 		long()
 	}
 	// word budget per child: small or large, so that the paragraph lands on both sides of keep/drop
-	per := []int{1, 2, 4, 9, 18}[(variant/2)%5]
+	per := []int{1, 2, 4, 9, 18}[(variant+r.Intn(5))%5]
 	target := func() {
 		g.L.Paras = append(g.L.Paras, ParaInfo{Place: place, Simple: true, Shape: strings.Join(seq, ",")})
 		id := len(g.L.Paras) - 1
 		g.curPara = id
 		g.push(place)
-		g.w("<p>")
+		open, close := "<p>", "</p>\n"
+		switch place {
+		case "body-loose":
+			// loose text directly in <body>, between block-level siblings
+			open, close = "</div>\n", "\n<div>"
+		case "div-loose":
+			open, close = "<div>", "</div>\n"
+		}
+		g.w(open)
 		for _, s := range seq {
 			n := 1 + r.Intn(per)
 			switch s {
@@ -176,12 +184,12 @@ func (c *Ctx) runC03Enum(idx int) (*artRun, bool) {
 				}
 			}
 		}
-		g.w("</p>\n")
+		g.w(close)
 		g.pop()
 		g.curPara = -1
 	}
 	switch place {
-	case "body":
+	case "body", "body-loose", "div-loose":
 		target()
 	case "li":
 		g.w("<ul><li>" + g.toks(1+r.Intn(3)) + "</li><li>")
